@@ -117,6 +117,16 @@ INFO = {
                      "send() answers ResourceNotAvailable, is_ready() Some(false), remove() true", ["C14", "C03", "C04"]),
     "C15-3": ("C15", "for_each_async/enqueue: one cached event is replayed per loop iteration, each followed by a live poll: "
                      "fresh events overtake the cached ones still waiting", ["C15", "C03"]),
+    "C02-3": ("C02", "a frame with a multi-byte size prefix met with nothing buffered, the chunk ending 1..w-1 bytes before "
+                     "the end of the frame: the 'whole frame present' test assumes a 1-byte prefix (panic in split_at)", ["C02", "C01", "C17"]),
+    "C07-3": ("C07", "a priority event queued while the earliest timer has not expired: the early return for the pending timer "
+                     "runs before the priority queue is looked at", ["C07"]),
+    "C08-3": ("C08", "the expiry test truncates the remaining time to whole milliseconds: a receive that runs within the last "
+                     "millisecond before a deadline returns the timer early", ["C08", "C07"]),
+    "C16-3": ("C16", "the wake-up is armed only for timers later than a second clock reading: a timer that expires between the "
+                     "expiry test and the arming is skipped and the receiver sleeps through it (forced at the sync point)", ["C16", "C08"]),
+    "C19-3": ("C19", "a socket address text longer than 52 bytes ([v6 with embedded v4]:65535, or a long %scope): a length "
+                     "guard skips parsing and classifies it as a string", ["C19"]),
     "C19-1": ("C19", "SocketAddrV6 with non-zero flowinfo/scope_id converted to RemoteAddr: the fields are dropped", ["C19"]),
 }
 
